@@ -71,7 +71,11 @@ func (tc *templateChecker) checkTemplate(node ast.Node) {
 	case *ast.CallNode:
 		tc.checkCall(node)
 	case *ast.ForNode:
+		// the loop variable is in scope within the loop only.
 		tc.forVars = append(tc.forVars, node.Var)
+		tc.recurse(node)
+		tc.forVars = tc.forVars[:len(tc.forVars)-1]
+		return
 	case *ast.DataRefNode:
 		tc.visitKey(node.Key)
 	case *ast.HeaderParamNode:
